@@ -26,6 +26,7 @@ RULE += (' Also: decorator form (the manager decorating an async function whose 
 RULE += (' Also: one manager object used as a decorator (twice) and then entered directly.')
 RULE += (' Also: generator functions called with keyword arguments named func/self/args/kwds/gen/cls.')
 RULE += (' Also: generator handlers / clean-ups raising AttributeError, TypeError, KeyError, LookupError, AssertionError, OSError.')
+RULE += (' Also: block exceptions whose instances are falsy (__len__ == 0 / __bool__ False).')
 ASSUMPTIONS = ["contextlib.asynccontextmanager of the running interpreter is the reference",
                "__cause__/__context__ chains and messages are not compared"]
 EXHAUSTIVE = {"quick": True, "thorough": True}
@@ -73,7 +74,19 @@ class GeneratorExitSub(GeneratorExit):
     """Only GeneratorExit itself is documented to close the generator; a subclass is thrown in like any exception."""
 
 
-OUTCOME = {"normal": None, "ValueError": ValueError, "Exception": Exception, "GeneratorExitSub": GeneratorExitSub,
+class FalsyError(Exception):
+    """An exception INSTANCE that is falsy (an error that is also a sized collection of its sub-errors, empty here)."""
+
+    def __len__(self):
+        return 0
+
+
+class FalsyRuntime(RuntimeError):
+    def __bool__(self):
+        return False
+
+
+OUTCOME = {"normal": None, "FalsyError": FalsyError, "FalsyRuntime": FalsyRuntime, "ValueError": ValueError, "Exception": Exception, "GeneratorExitSub": GeneratorExitSub,
            "BaseException": BaseException, "StopIteration": StopIteration,
            "StopAsyncIteration": StopAsyncIteration, "RuntimeError": RuntimeError, "GeneratorExit": GeneratorExit,
            "KeyboardInterrupt": KeyboardInterrupt, "New": New,
